@@ -1,6 +1,6 @@
 """C11: dyndep information behaves as if written in the manifest; invalid dyndep files are rejected."""
 import random
-import enginecheck as ec, engine
+import enginecheck as ec, engine, histmodel
 from props import engcommon
 LEVEL = 'proof'; TRUSTED = engcommon.TRUSTED_ENGINE; ASSUMPTIONS = engcommon.ASSUMPTIONS_ENGINE
 def run(ctx):
@@ -130,3 +130,6 @@ def run(ctx):
                    samples=[{'pair': pairs[0][0].sid, 'manifest': pairs[0][0].g.manifest()[:300], 'dyndep': dict(pairs[0][0].g.ddtext) or {k: v for k, v in pairs[0][0].g.sources.items() if k.startswith('dd')}}] +
                            [{'invalid': h.sid, 'kind': h.dd_kind, 'reason': h.dd_reason, 'text': h.g.sources.get(sorted(h.g.dd_info)[0], '<missing>')} for h in inv[:3]],
                    distribution=dict(pairs=len(pairs), invalid=kinds, dyndep_file_model=ddstats))
+    # the dyndep model (coq/Engine/HistDyndepDefs.v ybuild_f, theorems of Properties_C11hist.v) run against the real engine: histories with
+    # a dyndep file (source or produced); where its premises hold the inlined manifest must be in the same state (C11_equiv)
+    histmodel.hook(ctx, 'C11', dyn=True, quick=250, thorough=3000, key='hist_model_dyndep')
